@@ -14,6 +14,30 @@ func NewOutput(output io.Writer) *tablewriter.Table {
 	return table
 }
 
+// WrapText breaks text at blanks into lines of at most width columns; a word wider than
+// that stands on a line of its own. The result is meant for a table whose own wrapping is
+// switched off (SetAutoWrapText(false)): tablewriter's wrapping never returns, and allocates
+// without end, for a cell that holds a word wider than 46341 columns next to another word.
+func WrapText(text string, width int) string {
+	var lines []string
+	var line []string
+	used := 0
+	for _, word := range strings.Split(strings.Replace(text, "\n", " ", -1), " ") {
+		w := tablewriter.DisplayWidth(word)
+		if len(line) > 0 && used+1+w > width {
+			lines = append(lines, strings.Join(line, " "))
+			line, used = nil, 0
+		}
+		if len(line) > 0 {
+			used++
+		}
+		line = append(line, word)
+		used += w
+	}
+	lines = append(lines, strings.Join(line, " "))
+	return strings.Join(lines, "\n")
+}
+
 func NewCsv() (*tablewriter.Table, *strings.Builder) {
 	tableString := &strings.Builder{}
 	table := tablewriter.NewWriter(tableString)
